@@ -61,6 +61,10 @@ def universe(tier):
         e = shapes(idpat, 'Ident')[name]
         g = grammar(rule('s', e), rule('Ident', idpat, isname=True), keywords=['if', 'x'])
         items.append({'g': g, 'texts': texts, 'label': f'{name}/capitalised-name-rule', 'ic': 'off', 'kws': ['if', 'x'], 'rules': ['s', 'Ident']})
+    # the layers of the ignorecase setting: switched on by the directive, switched off for one parse (keywords as declared)
+    for name in ('closure', 'kw-then-name'):
+        g = grammar(rule('s', shapes(idpat)[name]), rule('id', idpat, isname=True), keywords=['if', 'x'])
+        items.append({'g': g, 'texts': texts, 'label': f'{name}/directive-on-parse-off', 'ic': 'directive-then-off', 'kws': ['if', 'x']})
     quoted = grammar(rule('s', seq(star(call('id')), eof())), rule('id', idpat, isname=True), keywords=['if', 'fi'])
     items.append({'g': quoted, 'texts': texts, 'label': 'quoted-keywords', 'ic': 'off', 'kws': ['if', 'fi'], 'quoted': True})
     return items
@@ -71,14 +75,14 @@ def run(tier):
     items = universe(tier)
     jobs, cases, per = Jobs(), [], {}
     for idx, it in enumerate(items):
-        ic = it['ic'] != 'off'
+        ic = it['ic'] in ('directive', 'setting')
         for act in ('none', 'tag'):
             cfg = make_cfg(chars_of(it['g'], it['texts']), ignorecase=ic, keywords=it['kws'], act=act, actrule='*')
             jobs.add(it['g'], cfg, it['texts'])
-        ebnf = to_ebnf(it['g'], directives={'ignorecase': 'True'} if it['ic'] == 'directive' else None)
+        ebnf = to_ebnf(it['g'], directives={'ignorecase': 'True'} if it['ic'] in ('directive', 'directive-then-off') else None)
         if it.get('quoted'):
             ebnf = ebnf.replace('@@keyword :: if', "@@keyword :: 'if'").replace('@@keyword :: fi', '@@keyword :: "fi"')
-        settings = {'ignorecase': True} if it['ic'] == 'setting' else {}
+        settings = {'ignorecase': True} if it['ic'] == 'setting' else {'ignorecase': False} if it['ic'] == 'directive-then-off' else {}
         for backend in ('model', 'generated'):
             cases.append(default_case(ebnf, it['texts'], settings=settings, rules=it.get('rules', ['s', 'id']), kinds=['none', 'tag'],
                                       backend=backend, label=it['label'], item=idx))
@@ -114,6 +118,10 @@ def run(tier):
                         why = f"spec: ordinary parse failure, impl {o['k']}:{o.get('cls')}"
                 if ci % 60 == 0 and t == 9 and kind == 'none':
                     ck.sample({'label': c['label'], 'grammar': c['ebnf'], 'text': text, 'backend': c['backend'], 'spec': so, 'impl': o})
+                if why and c['label'].endswith('/directive-on-parse-off') and (why.startswith('spec accepts') or why.startswith('spec rejects')) \
+                        and any(ch.isalpha() for ch in ''.join(text)) \
+                        and ck.known('KF-C11-1', f"{c['ebnf'].strip()} on {''.join(text)!r} [{c['backend']}]: {why}"):
+                    continue
                 if why:
                     ck.violation({'kind': 'parse', 'inputs': {'grammar': c['ebnf'], 'text': text, 'backend': c['backend'],
                                                               'settings': c['settings'], 'semantics': kind, 'label': c['label']},
@@ -122,6 +130,6 @@ def run(tier):
     ck.cov['distinct_nontrivial'] = len(seen)
     ck.cov['exhaustive'] = True
     ck.cov['rule'] = (f'{len(items)} keyword grammars (8 shapes: closure, keyword before/after the name alternative, lookaheads, named, '
-                      'prefix; 1-3 keywords; @name on/off; ignorecase off / directive / parse setting; a 13-keyword table; quoted keywords) '
+                      'prefix; 1-3 keywords; @name on/off; ignorecase off / directive / parse setting / directive on and parse setting off; a 13-keyword table; quoted keywords) '
                       'x all texts over {i,f,x,space} up to the bound + case variants x {no semantics, tagging action} x {model, generated}')
     return ck.finish()
